@@ -684,7 +684,11 @@ impl TypeChecker {
         };
 
         if diverges {
-            todo!("make a pretty error")
+            return Err(self.error_simple(
+                "cannot match on an expression that never yields a value",
+                "this expression always returns early",
+                expr.id,
+            ));
         }
 
         let Type::Name(type_name) = &t_expr else {
